@@ -96,8 +96,13 @@ CHECKS = {
             "systematic enumeration of line-level thread interleavings of the real Budget / CircuitBreaker methods "
             "under a deterministic scheduler (sys.settrace + scheduler-controlled replacement of the instance lock, "
             "pre-emption bounding); every distinct concurrent history is judged by TLC (LinCheck.tla) for "
-            "linearizability against the sequential specifications Breaker.tla / Budget.tla, plus deadlock detection",
-            "all schedules within the pre-emption bound for 18 small concurrent programs from relevant initial states "
+            "linearizability against the sequential specifications Breaker.tla / Budget.tla, plus deadlock detection; "
+            "design level: PlusCal algorithms BreakerThreads.tla / BudgetThreads.tla (one label per source line, "
+            "explicit lock) model-checked for mutual exclusion, linearizability and deadlock freedom with the "
+            "lock-free variants refuted, and the scheduler's line events of real runs validated against their labels "
+            "(ThreadTrace.tla, BudgetThreadTrace.tla)",
+            "all schedules within the pre-emption bound for 18 hand-written and 150 systematic concurrent programs "
+            "(all pairs of operations from every relevant initial state) "
             "yield histories (per-thread results, sequential epilogue exposing hidden state, final state) equal to "
             "some sequential order; no schedule deadlocks",
             "pre-emption before every source line of circuit.py/budget.py (not inside a line); constant clock during "
